@@ -37,6 +37,9 @@ def instances(tier):
     for g in (4, 5):
         for silent_from in range(0, n + 2):
             out.append({"kind": "api", "gen": g, "periods": n, "silent_from": silent_from})
+        # the silent link is half-open: closing it reports an OSError that is no ConnectionError (ETIMEDOUT / EHOSTUNREACH)
+        out.append({"kind": "api", "gen": g, "periods": n, "silent_from": 0, "close_exc": True})
+        out.append({"kind": "api", "gen": g, "periods": n, "silent_from": 1, "close_exc": True})
         out.append({"kind": "unit", "gen": g, "periods": 2, "silent_from": 0})
         out.append({"kind": "unit", "gen": g, "periods": 2, "silent_from": 1})
         out.append({"kind": "unit", "gen": g, "periods": 2 if tier == "quick" else 3, "silent_from": 9})
@@ -127,6 +130,15 @@ def run(ctx, p):
     rig = ApiRig(ctx, g, inst) if api_level else Rig(ctx, g)
     with rig:
         con = rig.console if api_level else Console(rig, inst)
+        if p.get("close_exc"):
+            prev_accept = rig.net.on_accept
+
+            def on_accept(conn):
+                conn.wait_closed_exc = (TimeoutError(110, "Connection timed out"), OSError(113, "No route to host"))[conn.index % 2]
+                if prev_accept is not None:
+                    prev_accept(conn)
+
+            rig.net.on_accept = on_accept
         hb_requests = []
         responses = []
         state = {"monitoring": False}
